@@ -176,6 +176,19 @@ def run(R, env):
     else:
         from engine.analysis import dispatch_table
         dct, dtab = dispatch_table(prog, sc.body.key, "IBCLifecycleComplete")
+        sudo_msg = lambda t_: t_[0] in ("param", "field", "payload", "variant") and any(s_[0] == "param" and len(s_) > 3 and "SudoMsg" in (s_[3] or "") for s_ in subterms(t_))
+        merged = None
+        if not any(e["handler"] for e in dtab.values()):
+            # one handler for both callbacks (`let SudoMsg::IBCLifecycleComplete(event) = msg; receive_lifecycle_event(deps, event)`):
+            # it is analysed once per variant, in the world where the event is that variant
+            from engine.analysis import must_pass as _mp0
+            for bi_, t_, a_ in call_sites(dct, lambda nm: True):
+                cb_ = prog.body(t_.get("rkey") or "")
+                if cb_ is not None and cb_.kind == "fn" and any("IBCLifecycleComplete" in (cb_.local_ty(i_) or "") for i_ in range(1, cb_.nargs + 1)) and any(sudo_msg(x_) for x_ in a_):
+                    merged = (bi_, t_, cb_)
+            if merged is not None:
+                vs_ = [v_["name"] for k_, a_ in prog.adts.items() if k_.endswith("IBCLifecycleComplete") for v_ in a_.get("variants", [])]
+                dtab = {v_: {"handler": [(merged[0], merged[1])], "merged": True} for v_ in vs_}
         for vname, e in sorted(dtab.items()):
             if not e["handler"]:
                 continue
@@ -185,10 +198,12 @@ def run(R, env):
             # the callback is always handed to its handler: no success exit of sudo bypasses it (a
             # callback that is acknowledged without being processed is consumed by the chain and lost)
             from engine.analysis import must_pass as _mp
-            dw = dct.assume_variant(lambda t_: t_[0] in ("param", "field", "payload", "variant") and any(s_[0] == "param" and len(s_) > 3 and "SudoMsg" in (s_[3] or "") for s_ in subterms(t_)), vname).settle()
+            dw = dct.assume_variant(sudo_msg, vname).settle()
             cbb = e["handler"][0][0]
             R.ob("C07.R4", ("ack" if vname == "IBCAck" else "timeout") + ":always-dispatched", cbb in dw.T.reach and _mp(dw, cbb), "sudo can answer Ok for this callback without handing it to its handler: the ack / timeout is consumed and the packet stays `Sent` (never refundable)", loc=dct.body.loc(cbb), fn=dct.body.key)
             c = handler_ctx(prog, dct, arm_)
+            if e.get("merged"):
+                c = c.assume_variant(sudo_msg, vname).settle()
             deep = lambda w_: [o for o in storage_ops_deep(prog, w_, env.depth) if o["kind"] == "w"]
             if not [o for o in storage_ops_deep(prog, c, env.depth) if ns_of(prog, o["args"][0]) == "inflight"]:
                 continue
